@@ -1177,7 +1177,8 @@ theorem mapConnsM_total {Q : Conn → Prop} (f : Nat → Conn → Res Empty Conn
     · exact q2 x hx
 
 theorem server_update_totalP {P} {s : Server} (h : s.InvP P) (dt : Nat) :
-    ∃ s', s.update dt = .ok s' ∧ s'.InvP P ∧ s'.events = s.events ∧ SL.QuietC s.conns s'.conns := by
+    ∃ s', s.update dt = .ok s' ∧ s'.InvP P ∧ s'.events = s.events ∧ SL.QuietC s.conns s'.conns ∧
+      s'.newConn = s.newConn := by
   obtain ⟨m', e', q⟩ := mapConnsM_total (Q := fun c => c.InvP P ∧ s.newConn.SameChans c) (fun _ c => c.update dt)
     (fun k c hq => by
       obtain ⟨c', e, i, -, -, -, sc, -⟩ := update_totalP hq.1 dt
@@ -1185,10 +1186,11 @@ theorem server_update_totalP {P} {s : Server} (h : s.InvP P) (dt : Nat) :
   have e : s.update dt = .ok { s with conns := m' } := by
     unfold Server.update; simp only [e', Res.bind_ok, Res.pure_eq]
   obtain ⟨ev, qu, -⟩ := SL.Server.update_spec e
-  exact ⟨_, e, ⟨fun x hx => (q x hx).1, fun x hx => (q x hx).2⟩, ev, qu⟩
+  exact ⟨_, e, ⟨fun x hx => (q x hx).1, fun x hx => (q x hx).2⟩, ev, qu, rfl⟩
 
 theorem server_broadcast_totalP {P} {s : Server} (h : s.InvP P) (ch : Nat) (m : Bytes) (hch : s.newConn.hasSend ch) :
-    ∃ s', s.broadcast ch m = .ok s' ∧ s'.InvP P ∧ s'.events = s.events ∧ SL.QuietC s.conns s'.conns := by
+    ∃ s', s.broadcast ch m = .ok s' ∧ s'.InvP P ∧ s'.events = s.events ∧ SL.QuietC s.conns s'.conns ∧
+      s'.newConn = s.newConn := by
   obtain ⟨m', e', q⟩ := mapConnsM_total (Q := fun c => c.InvP P ∧ s.newConn.SameChans c)
     (fun _ c => c.sendMessage ch m)
     (fun k c hq => by
@@ -1197,12 +1199,12 @@ theorem server_broadcast_totalP {P} {s : Server} (h : s.InvP P) (ch : Nat) (m : 
   have e : s.broadcast ch m = .ok { s with conns := m' } := by
     unfold Server.broadcast; simp only [e', Res.bind_ok, Res.pure_eq]
   obtain ⟨ev, qu, -⟩ := SL.Server.broadcast_spec e
-  exact ⟨_, e, ⟨fun x hx => (q x hx).1, fun x hx => (q x hx).2⟩, ev, qu⟩
+  exact ⟨_, e, ⟨fun x hx => (q x hx).1, fun x hx => (q x hx).2⟩, ev, qu, rfl⟩
 
 theorem server_broadcastExcept_totalP {P} {s : Server} (h : s.InvP P) (ex ch : Nat) (m : Bytes)
     (hch : s.newConn.hasSend ch) :
     ∃ s', s.broadcastExcept ex ch m = .ok s' ∧ s'.InvP P ∧ s'.events = s.events ∧ SL.QuietC s.conns s'.conns ∧
-      SMap.find? s'.conns ex = SMap.find? s.conns ex := by
+      SMap.find? s'.conns ex = SMap.find? s.conns ex ∧ s'.newConn = s.newConn := by
   obtain ⟨m', e', q⟩ := mapConnsM_total (Q := fun c => c.InvP P ∧ s.newConn.SameChans c)
     (fun k c => if k = ex then .ok c else c.sendMessage ch m)
     (fun k c hq => by
@@ -1214,8 +1216,133 @@ theorem server_broadcastExcept_totalP {P} {s : Server} (h : s.InvP P) (ex ch : N
   have e : s.broadcastExcept ex ch m = .ok { s with conns := m' } := by
     unfold Server.broadcastExcept; simp only [e', Res.bind_ok, Res.pure_eq]
   obtain ⟨ev, qu, hex, -⟩ := SL.Server.broadcastExcept_spec e
-  exact ⟨_, e, ⟨fun x hx => (q x hx).1, fun x hx => (q x hx).2⟩, ev, qu, hex⟩
+  exact ⟨_, e, ⟨fun x hx => (q x hx).1, fun x hx => (q x hx).2⟩, ev, qu, hex, rfl⟩
 
+
+/-! ### sequences of server operations -/
+
+theorem newConn_of_addressed {i : Nat} {s s' : Server} (h : SL.Server.Addressed i s s') : s'.newConn = s.newConn := by
+  unfold Server.newConn; rw [h.budget, h.serverCh, h.clientCh]
+
+theorem server_disconnectLocalClient_invP {P} {s : Server} (h : s.InvP P) (id : Nat) (cl : Conn) :
+    (s.disconnectLocalClient id cl).1.InvP P ∧ (s.disconnectLocalClient id cl).1.newConn = s.newConn := by
+  unfold Server.disconnectLocalClient
+  split
+  · exact ⟨h, rfl⟩
+  · dsimp only
+    split
+    · exact ⟨h, rfl⟩
+    · exact ⟨⟨fun x hx => h.conns x (SMap.mem_erase hx), fun x hx => h.chans x (SMap.mem_erase hx)⟩, rfl⟩
+
+/-- side conditions of one server operation: channel ids from the configuration, counters in range for a flush.
+    `process_local_client` (which takes an arbitrary client object as argument) is not covered. -/
+def SrvValid (s : Server) : SL.SrvOp → Prop
+  | .broadcast ch _ => s.newConn.hasSend ch
+  | .broadcastExcept _ ch _ => s.newConn.hasSend ch
+  | .send _ ch _ => s.newConn.hasSend ch
+  | .receive _ ch => s.newConn.hasRecv ch
+  | .getPacketsToSend id => ∀ c, SMap.find? s.conns id = some c → c.CountersOK
+  | .processLocalClient _ _ => False
+  | _ => True
+
+theorem srvApply_totalP {P} (hP : GoodP P) {st : SL.SrvState} (h : st.1.InvP P) (op : SL.SrvOp)
+    (hv : SrvValid st.1 op) :
+    ∃ st', op.apply st = .ok st' ∧ st'.1.InvP P ∧ st'.1.newConn = st.1.newConn := by
+  cases op with
+  | add id =>
+    refine ⟨_, rfl, server_addConnection_invP h id, ?_⟩
+    show (st.1.addConnection id).newConn = _
+    unfold Server.addConnection; split <;> rfl
+  | remove id =>
+    refine ⟨_, rfl, server_removeConnection_invP h id, ?_⟩
+    show (st.1.removeConnection id).newConn = _
+    unfold Server.removeConnection; split <;> rfl
+  | disconnect id =>
+    refine ⟨_, rfl, server_disconnect_invP h id, ?_⟩
+    show (st.1.disconnect id).newConn = _
+    unfold Server.disconnect; split <;> rfl
+  | disconnectAll => exact ⟨_, rfl, server_disconnectAll_invP h, rfl⟩
+  | broadcast ch m =>
+    obtain ⟨s', e, i, -, -, n⟩ := server_broadcast_totalP h ch m hv
+    exact ⟨(s', st.2), by simp only [SL.SrvOp.apply, e, SL.keepPopped], i, n⟩
+  | broadcastExcept ex ch m =>
+    obtain ⟨s', e, i, -, -, -, n⟩ := server_broadcastExcept_totalP h ex ch m hv
+    exact ⟨(s', st.2), by simp only [SL.SrvOp.apply, e, SL.keepPopped], i, n⟩
+  | send id ch m =>
+    obtain ⟨s', e, i, ad, -⟩ := server_sendMessage_totalP h id ch m hv
+    exact ⟨(s', st.2), by simp only [SL.SrvOp.apply, e, SL.keepPopped], i, newConn_of_addressed ad⟩
+  | receive id ch =>
+    obtain ⟨s', m, e, i, ad, -⟩ := server_receiveMessage_totalP h id ch hv
+    exact ⟨(s', st.2), by simp only [SL.SrvOp.apply, e, SL.Res.stateOf, SL.keepPopped], i, newConn_of_addressed ad⟩
+  | update dt =>
+    obtain ⟨s', e, i, -, -, n⟩ := server_update_totalP h dt
+    exact ⟨(s', st.2), by simp only [SL.SrvOp.apply, e, SL.keepPopped], i, n⟩
+  | getPacketsToSend id =>
+    obtain ⟨s', out, e, i, ad, -⟩ := server_getPacketsToSend_totalP h id hv
+    exact ⟨(s', st.2), by simp only [SL.SrvOp.apply, e, SL.Res.stateOf, SL.keepPopped], i, newConn_of_addressed ad⟩
+  | processPacketFrom b id =>
+    obtain ⟨s', ok, e, i, ad, -⟩ := server_processPacketFrom_totalP hP h b id
+    exact ⟨(s', st.2), by simp only [SL.SrvOp.apply, e, SL.Res.stateOf, SL.keepPopped], i, newConn_of_addressed ad⟩
+  | getEvent =>
+    refine ⟨_, rfl, server_getEvent_invP h, ?_⟩
+    show st.1.getEvent.1.newConn = _
+    unfold Server.getEvent; split <;> rfl
+  | newLocalClient id =>
+    refine ⟨_, rfl, server_addConnection_invP h id, ?_⟩
+    show (st.1.addConnection id).newConn = _
+    unfold Server.addConnection; split <;> rfl
+  | disconnectLocalClient id cl =>
+    exact ⟨_, rfl, (server_disconnectLocalClient_invP h id cl).1, (server_disconnectLocalClient_invP h id cl).2⟩
+  | processLocalClient id cl => exact hv.elim
+
+/-- the side conditions hold at every step of the sequence -/
+def SrvPre (st : SL.SrvState) : List SL.SrvOp → Prop
+  | [] => True
+  | op :: rest => SrvValid st.1 op ∧ ∀ st', op.apply st = .ok st' → SrvPre st' rest
+
+/-- **the server keeps working**: any sequence of server operations (hostile bytes attributed to any client id
+    anywhere in it) runs to completion and ends in a state whose connections all satisfy the invariant -/
+theorem runSrv_totalP {P} (hP : GoodP P) : ∀ (ops : List SL.SrvOp) (st : SL.SrvState), st.1.InvP P → SrvPre st ops →
+    ∃ st', SL.runSrv st ops = .ok st' ∧ st'.1.InvP P
+  | [], st, h, _ => ⟨st, rfl, h⟩
+  | op :: rest, st, h, hp => by
+    obtain ⟨st1, e1, i1, -⟩ := srvApply_totalP hP h op hp.1
+    obtain ⟨st2, e2, i2⟩ := runSrv_totalP hP rest st1 i1 (hp.2 st1 e1)
+    exact ⟨st2, by simp only [SL.runSrv, e1]; exact e2, i2⟩
+
+def srvValidb (s : Server) : SL.SrvOp → Bool
+  | .broadcast ch _ => decide (s.newConn.hasSend ch)
+  | .broadcastExcept _ ch _ => decide (s.newConn.hasSend ch)
+  | .send _ ch _ => decide (s.newConn.hasSend ch)
+  | .receive _ ch => decide (s.newConn.hasRecv ch)
+  | .getPacketsToSend id => match SMap.find? s.conns id with
+    | some c => countersOKb c
+    | none => true
+  | .processLocalClient _ _ => false
+  | _ => true
+
+theorem srvValid_of_b {s : Server} {op : SL.SrvOp} (h : srvValidb s op = true) : SrvValid s op := by
+  cases op <;> simp only [srvValidb, decide_eq_true_eq] at h <;> try trivial
+  all_goals first
+    | exact h
+    | (intro c hc; rw [hc] at h; exact countersOK_of_b h)
+    | cases h
+
+def srvPreb (st : SL.SrvState) : List SL.SrvOp → Bool
+  | [] => true
+  | op :: rest => srvValidb st.1 op &&
+    (match op.apply st with
+     | .ok st' => srvPreb st' rest
+     | _ => true)
+
+theorem srvPre_of_b : ∀ (ops : List SL.SrvOp) (st : SL.SrvState), srvPreb st ops = true → SrvPre st ops
+  | [], _, _ => trivial
+  | op :: rest, st, h => by
+    simp only [srvPreb, Bool.and_eq_true] at h
+    refine ⟨srvValid_of_b h.1, fun st' e => ?_⟩
+    have := h.2
+    rw [e] at this
+    exact srvPre_of_b rest st' this
 
 /-! ## C09: memory accounting -/
 
@@ -1516,6 +1643,449 @@ theorem recvUnrel_never_refuses (r : RecvUnrel) (sl : Slice) (now : Nat) (e : Ch
   · split at h
     · cases h
     · exact key _ h
+
+
+/-! ### (g) at connection level: a `ReliableChannelMaxMemoryReached` disconnect needs over-budget traffic -/
+
+theorem relSmallSum_cons (id : Nat) (m : Bytes) (rest : List (Nat × Bytes)) :
+    relSmallSum ((id, m) :: rest) = m.length + relSmallSum rest := by
+  simp [relSmallSum]
+
+theorem recvRel_processMessage_mem {r r' : RecvRel} {m : Bytes} {id : Nat} (h : r.processMessage m id = .ok r') :
+    r'.mem ≤ r.mem + m.length ∧ r'.maxMem = r.maxMem := by
+  rcases RecvRel.processMessage_cases r m id with he | ⟨-, he⟩ | ⟨-, -, rec, he, -⟩
+  · rw [he] at h; cases h; exact ⟨by omega, rfl⟩
+  · rw [he] at h; cases h
+  · rw [he] at h; cases h; exact ⟨Nat.le_refl _, rfl⟩
+
+/-- the small-message loop fails only with `MaxMemory`, and only when the packet's messages together exceed
+    what is left of the channel budget -/
+theorem relMsgLoop_refusal : ∀ (msgs : List (Nat × Bytes)) (r : RecvRel) (e : ChanErr) (r' : RecvRel),
+    Conn.relMsgLoop r msgs = .err (e, r') → e = .maxMemory ∧ r.mem + relSmallSum msgs > r.maxMem
+  | [], r, e, r', h => by cases h
+  | (id, m) :: rest, r, e, r', h => by
+    rw [relSmallSum_cons]
+    cases hp : r.processMessage m id with
+    | ok r1 =>
+      simp only [Conn.relMsgLoop, hp] at h
+      obtain ⟨h1, h2⟩ := relMsgLoop_refusal rest r1 e r' h
+      obtain ⟨m1, m2⟩ := recvRel_processMessage_mem hp
+      exact ⟨h1, by omega⟩
+    | err x =>
+      obtain ⟨e0, r0⟩ := x
+      simp only [Conn.relMsgLoop, hp, Res.err.injEq, Prod.mk.injEq] at h
+      obtain ⟨rfl, rfl⟩ := h
+      obtain ⟨a, -, b⟩ := recvRel_processMessage_refusal r m id _ _ hp
+      exact ⟨a, by omega⟩
+    | panic s => simp only [Conn.relMsgLoop, hp] at h; cases h
+
+theorem dw_status_live {c2 : Conn} (hd : c2.isDisconnected = false) (R : Reason) :
+    (c2.disconnectWith R).status = .disconnected R := by
+  rw [SL.Conn.disconnectWith_status, hd]; rfl
+
+theorem dw_status_eq {c2 : Conn} {R : Reason} {S : Status} (hs : (c2.disconnectWith R).status = S)
+    (hd : c2.isDisconnected = false) : S = .disconnected R := by
+  rw [← hs, dw_status_live hd]
+
+theorem status_live_ne {c : Conn} (hd : c.isDisconnected = false) (R : Reason) : c.status ≠ .disconnected R := by
+  intro h
+  rw [SL.Conn.isDisconnected_of_status h] at hd; cases hd
+
+/-- **in-budget traffic is never refused** (connection level): if `process_packet` leaves a live connection
+    disconnected with `ReceiveChannelError(ch, ReliableChannelMaxMemoryReached)`, then `ch` is a reliable receive
+    channel and the packet either carried small messages whose total length exceeds the free budget of `ch`, or
+    was the first slice seen of a message whose reservation `num_slices * SLICE_SIZE` exceeds it.  Packets for
+    unreliable channels, slices of messages already being reassembled, duplicates, and completions never cause
+    this disconnect. -/
+theorem maxMemory_disconnect_only_over_budgetP {P} (hP : GoodP P) {c c' : Conn} (h : c.InvP P) {bytes : Bytes}
+    {ch : Nat} (hd : c.isDisconnected = false) (e : c.processPacket bytes = .ok c')
+    (hs : c'.status = .disconnected (.recvChan ch .maxMemory)) :
+    ∃ r, SMap.find? c.recvRel ch = some r ∧
+      ((∃ seq msgs, Packet.fromBytes bytes = .ok (.smallReliable seq ch msgs) ∧
+          r.mem + relSmallSum msgs > r.maxMem) ∨
+       (∃ seq sl, Packet.fromBytes bytes = .ok (.reliableSlice seq ch sl) ∧
+          SMap.contains r.slices sl.messageId = false ∧ r.mem + sl.numSlices * SLICE_SIZE > r.maxMem)) := by
+  cases hp : Packet.fromBytes bytes with
+  | error e0 =>
+    have e1 : c.processPacket bytes = .ok (c.disconnectWith (.packetDeser e0)) := by
+      unfold Conn.processPacket; rw [hd, hp]; rfl
+    rw [e1] at e; cases e
+    have := dw_status_eq hs hd; cases this
+  | ok p =>
+    cases p with
+    | ack aseq ranges =>
+      obtain ⟨L, c2, -, e2, -, eff, -, -⟩ := SI.Conn.processPacket_ack_spec h.send hd hp
+      rw [e2] at e; cases e
+      obtain ⟨-, -, f3, -⟩ := eff.frame
+      rw [f3] at hs
+      exact absurd hs (status_live_ne hd _)
+    | smallReliable seq ch0 msgs =>
+      unfold Conn.processPacket at e; rw [hd, hp] at e
+      simp only [Bool.false_eq_true, if_false] at e
+      cases hf : SMap.find? c.recvRel ch0 with
+      | none =>
+        rw [hf] at e; simp only [Res.ok.injEq] at e; subst e
+        have := dw_status_eq hs hd; cases this
+      | some r =>
+        rw [hf] at e; simp only at e
+        cases hl : Conn.relMsgLoop r msgs with
+        | ok r' =>
+          rw [hl] at e; simp only [Res.ok.injEq] at e; subst e
+          exact absurd hs (status_live_ne hd _)
+        | err x =>
+          obtain ⟨e0, r'⟩ := x
+          rw [hl] at e; simp only [Res.ok.injEq] at e; subst e
+          have hs' := dw_status_eq hs hd
+          simp only [Status.disconnected.injEq, Reason.recvChan.injEq] at hs'
+          obtain ⟨rfl, rfl⟩ := hs'
+          exact ⟨r, hf, Or.inl ⟨seq, msgs, rfl, (relMsgLoop_refusal msgs r _ r' hl).2⟩⟩
+        | panic s => rw [hl] at e; cases e
+    | smallUnreliable seq ch0 msgs =>
+      unfold Conn.processPacket at e; rw [hd, hp] at e
+      simp only [Bool.false_eq_true, if_false] at e
+      cases hf : SMap.find? c.recvUnrel ch0 with
+      | none =>
+        rw [hf] at e; simp only [Res.ok.injEq] at e; subst e
+        have := dw_status_eq hs hd; cases this
+      | some r =>
+        rw [hf] at e; simp only [Res.ok.injEq] at e; subst e
+        exact absurd hs (status_live_ne hd _)
+    | reliableSlice seq ch0 sl =>
+      have hn := (Packet.fromBytes_numSlices bytes _ hp seq ch0 sl (Or.inl rfl)).1
+      unfold Conn.processPacket at e; rw [hd, hp] at e
+      simp only [Bool.false_eq_true, if_false] at e
+      cases hf : SMap.find? c.recvRel ch0 with
+      | none =>
+        rw [hf] at e; simp only [Res.ok.injEq] at e; subst e
+        have := dw_status_eq hs hd; cases this
+      | some r =>
+        rw [hf] at e; simp only at e
+        cases hl : r.processSlice sl with
+        | ok r' =>
+          rw [hl] at e; simp only [Res.ok.injEq] at e; subst e
+          exact absurd hs (status_live_ne hd _)
+        | err x =>
+          obtain ⟨e0, r'⟩ := x
+          rw [hl] at e; simp only [Res.ok.injEq] at e; subst e
+          have hs' := dw_status_eq hs hd
+          simp only [Status.disconnected.injEq, Reason.recvChan.injEq] at hs'
+          obtain ⟨rfl, rfl⟩ := hs'
+          obtain ⟨-, b1, b2⟩ := (refusal_only_over_budget hP.pred r (h.recvRel_find hf)).2 sl r' (hP.new _ hn) hl
+          exact ⟨r, hf, Or.inr ⟨seq, sl, rfl, b1, b2⟩⟩
+        | panic s => rw [hl] at e; cases e
+    | unreliableSlice seq ch0 sl =>
+      unfold Conn.processPacket at e; rw [hd, hp] at e
+      simp only [Bool.false_eq_true, if_false] at e
+      cases hf : SMap.find? c.recvUnrel ch0 with
+      | none =>
+        rw [hf] at e; simp only [Res.ok.injEq] at e; subst e
+        have := dw_status_eq hs hd; cases this
+      | some r =>
+        rw [hf] at e; simp only at e
+        cases hl : r.processSlice sl c.now with
+        | ok r' =>
+          rw [hl] at e; simp only [Res.ok.injEq] at e; subst e
+          exact absurd hs (status_live_ne hd _)
+        | err x =>
+          obtain ⟨e0, r'⟩ := x
+          rw [hl] at e; simp only [Res.ok.injEq] at e; subst e
+          have hs' := dw_status_eq hs hd
+          simp only [Status.disconnected.injEq, Reason.recvChan.injEq] at hs'
+          obtain ⟨rfl, rfl⟩ := hs'
+          have := recvUnrel_never_refuses r sl c.now _ r' hl
+          cases this
+        | panic s => rw [hl] at e; cases e
+
+
+/-! ### (f) continued: once handed to the application, a message id is ignored forever -/
+
+end CI
+
+/-- message `id` has been handed to the application (ordered: the cursor passed it; unordered: the cursor passed it
+    or it is remembered in `received`) -/
+def RecvRel.Done (r : RecvRel) (id : Nat) : Prop := id < r.oldest ∨ (r.ordered = false ∧ id ∈ r.received)
+
+/-- the delivery cursor only moves forward, and remembered ids are only forgotten below the cursor -/
+def RecvRel.Keeps (r r' : RecvRel) : Prop :=
+  r'.ordered = r.ordered ∧ r.oldest ≤ r'.oldest ∧ ∀ k ∈ r.received, k < r'.oldest ∨ k ∈ r'.received
+
+namespace CI
+
+theorem keeps_refl (r : RecvRel) : r.Keeps r := ⟨rfl, Nat.le_refl _, fun _ hk => Or.inr hk⟩
+
+theorem keeps_of_eq {r r' : RecvRel} (h1 : r'.ordered = r.ordered) (h2 : r'.oldest = r.oldest)
+    (h3 : r'.received = r.received) : r.Keeps r' := ⟨h1, by omega, fun k hk => Or.inr (h3 ▸ hk)⟩
+
+theorem keeps_trans {a b c : RecvRel} (h1 : a.Keeps b) (h2 : b.Keeps c) : a.Keeps c := by
+  refine ⟨h2.1.trans h1.1, Nat.le_trans h1.2.1 h2.2.1, fun k hk => ?_⟩
+  rcases h1.2.2 k hk with h | h
+  · left; have := h2.2.1; omega
+  · exact h2.2.2 k h
+
+theorem done_keeps {r r' : RecvRel} {id : Nat} (hd : r.Done id) (hk : r.Keeps r') : r'.Done id := by
+  rcases hd with h | ⟨h1, h2⟩
+  · left; have := hk.2.1; omega
+  · rcases hk.2.2 id h2 with h | h
+    · exact Or.inl h
+    · exact Or.inr ⟨hk.1.trans h1, h⟩
+
+/-- a delivered id is ignored entirely: the channel state does not change at all (in particular no reservation is
+    made — the leak of defect D1) -/
+theorem done_ignored {r : RecvRel} {id : Nat} (hd : r.Done id) :
+    (∀ sl : Slice, sl.messageId = id → r.processSlice sl = .ok r) ∧ (∀ m, r.processMessage m id = .ok r) := by
+  refine ⟨fun sl hs => recvRel_processSlice_ignored r sl ?_, fun m => recvRel_processMessage_ignored r m id ?_⟩
+  · rw [hs]; rcases hd with h | h
+    · exact Or.inr (Or.inl h)
+    · exact Or.inr (Or.inr h)
+  · rcases hd with h | h
+    · exact Or.inl h
+    · exact Or.inr (Or.inr h)
+
+theorem processMessage_keeps {r r' : RecvRel} {m : Bytes} {id : Nat}
+    (h : r.processMessage m id = .ok r' ∨ ∃ e, r.processMessage m id = .err (e, r')) : r.Keeps r' := by
+  rcases RecvRel.processMessage_cases r m id with he | ⟨-, he⟩ | ⟨-, -, rec, he, h1, h2⟩
+  · rcases h with h | ⟨e, h⟩ <;> rw [he] at h <;> cases h
+    exact keeps_refl r
+  · rcases h with h | ⟨e, h⟩ <;> rw [he] at h <;> cases h
+    exact keeps_refl r
+  · rcases h with h | ⟨e, h⟩ <;> rw [he] at h <;> cases h
+    refine ⟨rfl, Nat.le_refl _, fun k hk => Or.inr ?_⟩
+    show k ∈ rec
+    cases ho : r.ordered with
+    | true => rw [(h1 ho).2]; exact hk
+    | false => rw [(h2 ho).2]; exact List.mem_cons_of_mem _ hk
+
+theorem bind_ok_cases {ε α β : Type} {x : Res ε α} {f : α → Res ε β} {b : β} (h : (x >>= f) = .ok b) :
+    ∃ a, x = .ok a ∧ f a = .ok b := by
+  cases x with
+  | ok a => exact ⟨a, rfl, h⟩
+  | err e' => simp only [Res.bind_err] at h; cases h
+  | panic s => simp only [Res.bind_panic] at h; cases h
+
+theorem reserveStep_keeps {r r1 : RecvRel} {sl : Slice}
+    (h : r.reserveStep sl = .ok r1 ∨ ∃ e, r.reserveStep sl = .err (e, r1)) : r.Keeps r1 := by
+  unfold RecvRel.reserveStep at h
+  split at h
+  · rcases h with h | ⟨e, h⟩ <;> cases h
+    exact keeps_refl r
+  · dsimp only at h
+    split at h
+    · rcases h with h | ⟨e, h⟩ <;> cases h
+      exact keeps_refl r
+    · rcases h with h | ⟨e, h⟩ <;> cases h
+      exact keeps_of_eq rfl rfl rfl
+
+theorem sliceStep_keeps {r r' : RecvRel} {sl : Slice}
+    (h : r.sliceStep sl = .ok r' ∨ ∃ e, r.sliceStep sl = .err (e, r')) : r.Keeps r' := by
+  unfold RecvRel.sliceStep at h
+  split at h
+  · rcases h with h | ⟨e, h⟩ <;> cases h
+  · split at h
+    · rcases h with h | ⟨e, h⟩ <;> cases h
+      exact keeps_refl r
+    · split at h
+      · rcases h with h | ⟨e, h⟩ <;> cases h
+      · rcases h with h | ⟨e, h⟩ <;> cases h
+        exact keeps_refl r
+      · rcases h with h | ⟨e, h⟩ <;> cases h
+        exact keeps_of_eq rfl rfl rfl
+      · rename_i c hf hn x c' m hm
+        simp only [Res.csub] at h
+        split at h
+        · simp only [Res.bind_ok] at h
+          rcases h with h | ⟨e, h⟩
+          · obtain ⟨r2, h2, h3⟩ := bind_ok_cases h
+            simp only [Res.pure_eq, Res.ok.injEq] at h3
+            subst h3
+            have k1 := processMessage_keeps (Or.inl h2)
+            refine keeps_trans ?_ (keeps_trans k1 (keeps_of_eq rfl rfl rfl))
+            exact keeps_of_eq rfl rfl rfl
+          · rcases bind_err_cases h with h2 | ⟨r2, -, h3⟩
+            · have k1 := processMessage_keeps (Or.inr ⟨e, h2⟩)
+              refine keeps_trans ?_ k1
+              exact keeps_of_eq rfl rfl rfl
+            · simp only [Res.pure_eq] at h3; cases h3
+        · rcases h with h | ⟨e, h⟩ <;> cases h
+
+theorem processSlice_keeps {r r' : RecvRel} {sl : Slice}
+    (h : r.processSlice sl = .ok r' ∨ ∃ e, r.processSlice sl = .err (e, r')) : r.Keeps r' := by
+  rw [RecvRel.processSlice_eq] at h
+  split at h
+  · rcases h with h | ⟨e, h⟩ <;> cases h
+    exact keeps_refl r
+  split at h
+  · rcases h with h | ⟨e, h⟩ <;> cases h
+    exact keeps_refl r
+  rcases h with h | ⟨e, h⟩
+  · obtain ⟨r1, h1, h2⟩ := bind_ok_cases h
+    exact keeps_trans (reserveStep_keeps (Or.inl h1)) (sliceStep_keeps (Or.inl h2))
+  · rcases bind_err_cases h with h1 | ⟨r1, h1, h2⟩
+    · exact reserveStep_keeps (Or.inr ⟨e, h1⟩)
+    · exact keeps_trans (reserveStep_keeps (Or.inl h1)) (sliceStep_keeps (Or.inr ⟨e, h2⟩))
+
+/-- `receive`: the cursor/remembered set evolve monotonically, and the id just delivered is `Done` afterwards -/
+theorem receive_keeps_done {P} {r r' : RecvRel} {m : Bytes} (hi : r.InvP P) (h : r.receive = .ok (r', some m)) :
+    r.Keeps r' ∧ ∃ id, SMap.find? r.messages id = some m ∧ r'.Done id := by
+  unfold RecvRel.receive at h
+  split at h
+  · rename_i ho
+    split at h
+    · cases h
+    · rename_i m0 hm0
+      simp only [Res.csub] at h
+      split at h
+      · simp only [Res.bind_ok, Res.pure_eq, Res.ok.injEq, Prod.mk.injEq, Option.some.injEq] at h
+        obtain ⟨rfl, rfl⟩ := h
+        refine ⟨⟨rfl, by show r.oldest ≤ r.oldest + 1; omega, fun k hk => Or.inr hk⟩, r.oldest, hm0, Or.inl ?_⟩
+        show r.oldest < r.oldest + 1; omega
+      · cases h
+  · rename_i ho
+    have ho' : r.ordered = false := by simpa using ho
+    split at h
+    · cases h
+    · rename_i id m0 rest hm
+      simp only [Res.csub] at h
+      split at h
+      · simp only [Res.bind_ok, Res.pure_eq, Res.ok.injEq, Prod.mk.injEq, Option.some.injEq] at h
+        obtain ⟨rfl, rfl⟩ := h
+        have hfind : SMap.find? r.messages id = some m0 := by rw [hm, SMap.find?_cons, if_pos rfl]
+        have hpend := hi.pending ho' id (SMap.contains_of_find? hfind)
+        by_cases hid : r.oldest = id
+        · subst hid
+          have hin : r.oldest ∈ r.received := by
+            rcases hpend with hp | hp
+            · omega
+            · exact hp
+          obtain ⟨a1, a2⟩ := advanceOldest_spec r.received.length r.oldest r.received
+          simp only [↓reduceIte]
+          refine ⟨⟨rfl, a1, a2⟩, r.oldest, hfind, ?_⟩
+          rcases a2 r.oldest hin with hx | hx
+          · exact Or.inl hx
+          · exact Or.inr ⟨ho', hx⟩
+        · simp only [hid, if_false]
+          refine ⟨⟨rfl, Nat.le_refl _, fun k hk => Or.inr hk⟩, id, hfind, ?_⟩
+          rcases hpend with hp | hp
+          · exact Or.inl hp
+          · exact Or.inr ⟨ho', hp⟩
+      · cases h
+
+
+/-- `receive` (whatever it returns) moves the cursor / remembered set monotonically; no invariant needed -/
+theorem receive_keeps {r r' : RecvRel} {m : Option Bytes} (h : r.receive = .ok (r', m)) : r.Keeps r' := by
+  cases m with
+  | none => rw [recvRel_receive_none h]; exact keeps_refl r
+  | some m =>
+    unfold RecvRel.receive at h
+    split at h
+    · split at h
+      · cases h
+      · simp only [Res.csub] at h
+        split at h
+        · simp only [Res.bind_ok, Res.pure_eq, Res.ok.injEq, Prod.mk.injEq, Option.some.injEq] at h
+          obtain ⟨rfl, rfl⟩ := h
+          exact ⟨rfl, by show r.oldest ≤ r.oldest + 1; omega, fun k hk => Or.inr hk⟩
+        · cases h
+    · split at h
+      · cases h
+      · rename_i id m0 rest hm
+        simp only [Res.csub] at h
+        split at h
+        · simp only [Res.bind_ok, Res.pure_eq, Res.ok.injEq, Prod.mk.injEq, Option.some.injEq] at h
+          obtain ⟨rfl, rfl⟩ := h
+          by_cases hid : r.oldest = id
+          · subst hid
+            obtain ⟨a1, a2⟩ := advanceOldest_spec r.received.length r.oldest r.received
+            simp only [↓reduceIte]
+            exact ⟨rfl, a1, a2⟩
+          · simp only [hid, if_false]
+            exact ⟨rfl, Nat.le_refl _, fun k hk => Or.inr hk⟩
+        · cases h
+
+end CI
+
+/-- any later history of a reliable receive channel: messages and slices arriving (accepted, ignored or refused)
+    and the application draining -/
+inductive RecvRel.Steps : RecvRel → RecvRel → Prop
+  | refl (r : RecvRel) : RecvRel.Steps r r
+  | message {r r1 r2 : RecvRel} {m : Bytes} {id : Nat} :
+      (r.processMessage m id = .ok r1 ∨ ∃ e, r.processMessage m id = .err (e, r1)) → RecvRel.Steps r1 r2 →
+      RecvRel.Steps r r2
+  | slice {r r1 r2 : RecvRel} {sl : Slice} :
+      (r.processSlice sl = .ok r1 ∨ ∃ e, r.processSlice sl = .err (e, r1)) → RecvRel.Steps r1 r2 → RecvRel.Steps r r2
+  | receive {r r1 r2 : RecvRel} {m : Option Bytes} : r.receive = .ok (r1, m) → RecvRel.Steps r1 r2 → RecvRel.Steps r r2
+
+namespace CI
+
+theorem steps_keeps {r r' : RecvRel} (h : RecvRel.Steps r r') : r.Keeps r' := by
+  induction h with
+  | refl r => exact keeps_refl r
+  | message h1 _ ih => exact keeps_trans (processMessage_keeps h1) ih
+  | slice h1 _ ih => exact keeps_trans (processSlice_keeps h1) ih
+  | receive h1 _ ih => exact keeps_trans (receive_keeps h1) ih
+
+/-- **D1 repaired (honest-peer leak freedom).**  Once a message has been handed to the application, every later
+    slice or copy of it — after any further history of the channel — leaves the channel state completely unchanged:
+    no reservation, no constructor, no byte accounted.  Holds for ordered and unordered channels alike. -/
+theorem delivered_ignored_forever {P} {r r1 r2 : RecvRel} {m : Bytes} (hi : r.InvP P)
+    (hrecv : r.receive = .ok (r1, some m)) (hsteps : RecvRel.Steps r1 r2) :
+    ∃ id, SMap.find? r.messages id = some m ∧
+      (∀ sl : Slice, sl.messageId = id → r2.processSlice sl = .ok r2) ∧ (∀ m', r2.processMessage m' id = .ok r2) := by
+  obtain ⟨-, id, hf, hd⟩ := receive_keeps_done hi hrecv
+  exact ⟨id, hf, done_ignored (done_keeps hd (steps_keeps hsteps))⟩
+
+/-! ### (g) send side -/
+
+theorem sendRel_refusal {s : SendRel} {m : Bytes} {e : ChanErr} (h : s.sendMessage m = .error e) :
+    e = .maxMemory ∧ s.mem + m.length > s.maxMem := by
+  unfold SendRel.sendMessage at h
+  split at h
+  · cases h; exact ⟨rfl, by assumption⟩
+  · cases h
+
+/-- `send_message` disconnects a live connection (`SendChannelError`) only when the message does not fit in what is
+    left of the reliable channel's budget; an unreliable channel never disconnects (the message is dropped) -/
+theorem sendChan_disconnect_only_over_budget {c c' : Conn} {ch ch' : Nat} {m : Bytes} {e : ChanErr}
+    (hd : c.isDisconnected = false) (h : c.sendMessage ch m = .ok c')
+    (hs : c'.status = .disconnected (.sendChan ch' e)) :
+    ch' = ch ∧ e = .maxMemory ∧ ∃ s, SMap.find? c.sendRel ch = some s ∧ s.mem + m.length > s.maxMem := by
+  unfold Conn.sendMessage at h
+  rw [hd] at h
+  simp only [Bool.false_eq_true, if_false] at h
+  split at h
+  · rename_i s hf
+    split at h
+    · cases h; exact absurd hs (status_live_ne hd _)
+    · rename_i e0 he0
+      cases h
+      have := dw_status_eq hs hd
+      simp only [Status.disconnected.injEq, Reason.sendChan.injEq] at this
+      obtain ⟨rfl, rfl⟩ := this
+      obtain ⟨a, b⟩ := sendRel_refusal he0
+      exact ⟨rfl, a, s, hf, b⟩
+  · split at h
+    · cases h; exact absurd hs (status_live_ne hd _)
+    · cases h
+
+/-! ### every unreliable send channel is in the send order -/
+
+theorem fresh_order_complete {budget : Nat} {send recv : List ChanCfg} {c : Conn}
+    (hsc : (Conn.fromChannels budget send recv).SameChans c) {ch : Nat} {s : SendUnrel}
+    (hf : SMap.find? c.sendUnrel ch = some s) : (false, ch) ∈ c.order := by
+  rw [hsc.order]
+  have h1 := hsc.sendUnrel ch
+  rw [hf] at h1
+  cases hg : SMap.find? (Conn.fromChannels budget send recv).sendUnrel ch with
+  | none => rw [hg] at h1; cases h1
+  | some s0 =>
+    simp only [Conn.fromChannels] at hg
+    rcases SI.foldl_insert_find (fun c : ChanCfg => c.id) (fun c => SendUnrel.new c.id c.maxMem) _ _ ch s0 hg
+      with h | ⟨cfg, hc, h2, -⟩
+    · cases h
+    · obtain ⟨hc1, hc2⟩ := List.mem_filter.mp hc
+      simp only [Conn.fromChannels, List.mem_map]
+      refine ⟨cfg, hc1, ?_⟩
+      have : cfg.kind = .unreliable := by simpa using hc2
+      simp [this, h2]
 
 end CI
 end RenetVerif
